@@ -1,4 +1,5 @@
 import GuppyVerif.Model.Linearity
+import GuppyVerif.Spec.C06
 import GuppyVerif.Util.Sexp
 /-! Line-protocol driver for C06.  One S-expression per line:
     `(prog (lin x…) (bvars v…) (bleaves x…) (blocks b…) (entry e) (exit x <0|1 reachable>)
@@ -6,7 +7,8 @@ import GuppyVerif.Util.Sexp
     stmt  = `(move (place…) (place…))` | `(call (place…) (arg…) <0|1>)` | `(ret place…)`
     arg   = `(o place)` | `(b place)`
     place = `(p <var|-> <0|1> leaf…)`
-    reply: `ok (b x…)…` (place-level live_before of the inner blocks) | `err <class>` | `bad-wf` (the CFG does not have the shape `Prog.WF`) -/
+    reply: `ok (b x…)…` (place-level live_before of the inner blocks) | `err <class>`
+           (`ok-rows-not-covering` / `err-rows-not-covering` if the assumption `RowsOK` fails on this CFG) | `bad-wf` (the CFG does not have the shape `Prog.WF`) -/
 open GuppyVerif GuppyVerif.Linearity
 
 def fieldC06? (tag : String) (e : Sexp) : Option (List Nat) :=
@@ -91,6 +93,27 @@ def showLive (P : Prog) : String :=
     String.join ((rows.filter fun r => r.1 != P.entry && r.1 != P.exit).map fun r =>
       " (" ++ " ".intercalate ((r.1 :: r.2.foldr insSorted []).map toString) ++ ")")
 
+/-- all leaves that occur in the program -/
+def allLeaves (P : Prog) : List Nat :=
+  let ofPlaces (ps : List Place) := ps.flatMap (·.leaves)
+  let ofStmt : Stmt → List Nat
+    | .move t s => ofPlaces t ++ ofPlaces s
+    | .call t a _ => ofPlaces t ++ ofPlaces (a.map Arg.place)
+    | .ret s => ofPlaces s
+  (P.borrowedLeaves ++ P.blocks.flatMap (fun b => P.row b ++ (P.stmts b).flatMap ofStmt)).foldr insSorted []
+
+/-- blocks from whose start some continuation reads `l` before redefining it (`WillUse`), by
+    iteration to a fixpoint (at most `|blocks|` rounds) -/
+def willUseBlocks (P : Prog) (l : Nat) : List Nat :=
+  let here := P.blocks.filter fun b => (P.blockEvs l b).head? == some Ev.use
+  let quiet := P.blocks.filter fun b => (P.blockEvs l b).isEmpty
+  let step (w : List Nat) := w ++ quiet.filter fun b => !w.contains b && (P.succ b).any w.contains
+  (List.range P.blocks.length).foldl (fun w _ => step w) here
+
+/-- executable check of the assumption `RowsOK` of `lin_complete_rows_partial` on the CFG at hand -/
+def rowsOKb (P : Prog) : Bool :=
+  (allLeaves P).all fun l => (willUseBlocks P l).all fun b => (P.row b).contains l
+
 def handleC06 (line : String) : String :=
   match Sexp.parse line with
   | some e =>
@@ -98,8 +121,8 @@ def handleC06 (line : String) : String :=
     | some P =>
       if !P.wfb then "bad-wf" else
       match checkCfg P with
-      | .ok _ => "ok" ++ showLive P
-      | .error er => "err " ++ errName er
+      | .ok _ => (if rowsOKb P then "ok" else "ok-rows-not-covering") ++ showLive P
+      | .error er => (if rowsOKb P then "err " else "err-rows-not-covering ") ++ errName er
     | none => "bad-op"
   | none => "bad-op"
 
